@@ -152,4 +152,152 @@ impl AnyHand {
     }
 }
 
+impl AnyHand {
+    /// the n-th slot accessor: first(), second(), ... seventh()
+    pub fn get(&self, i: usize) -> u32 {
+        match self {
+            AnyHand::H2(h) => match i {
+                0 => h.first(),
+                _ => h.second(),
+            },
+            AnyHand::H3(h) => match i {
+                0 => h.first(),
+                1 => h.second(),
+                _ => h.third(),
+            },
+            AnyHand::H4(h) => match i {
+                0 => h.first(),
+                1 => h.second(),
+                2 => h.third(),
+                _ => h.forth(),
+            },
+            AnyHand::H5(h) => match i {
+                0 => h.first(),
+                1 => h.second(),
+                2 => h.third(),
+                3 => h.forth(),
+                _ => h.fifth(),
+            },
+            AnyHand::H6(h) => match i {
+                0 => h.first(),
+                1 => h.second(),
+                2 => h.third(),
+                3 => h.forth(),
+                4 => h.fifth(),
+                _ => h.sixth(),
+            },
+            AnyHand::H7(h) => match i {
+                0 => h.first(),
+                1 => h.second(),
+                2 => h.third(),
+                3 => h.forth(),
+                4 => h.fifth(),
+                5 => h.sixth(),
+                _ => h.seventh(),
+            },
+        }
+    }
+    /// the n-th slot setter: set_first(), ... set_seventh(); returns the updated container
+    pub fn set(&self, i: usize, w: u32) -> AnyHand {
+        match *self {
+            AnyHand::H2(mut h) => {
+                match i {
+                    0 => h.set_first(w),
+                    _ => h.set_second(w),
+                }
+                AnyHand::H2(h)
+            }
+            AnyHand::H3(mut h) => {
+                match i {
+                    0 => h.set_first(w),
+                    1 => h.set_second(w),
+                    _ => h.set_third(w),
+                }
+                AnyHand::H3(h)
+            }
+            AnyHand::H4(mut h) => {
+                match i {
+                    0 => h.set_first(w),
+                    1 => h.set_second(w),
+                    2 => h.set_third(w),
+                    _ => h.set_forth(w),
+                }
+                AnyHand::H4(h)
+            }
+            AnyHand::H5(mut h) => {
+                match i {
+                    0 => h.set_first(w),
+                    1 => h.set_second(w),
+                    2 => h.set_third(w),
+                    3 => h.set_forth(w),
+                    _ => h.set_fifth(w),
+                }
+                AnyHand::H5(h)
+            }
+            AnyHand::H6(mut h) => {
+                match i {
+                    0 => h.set_first(w),
+                    1 => h.set_second(w),
+                    2 => h.set_third(w),
+                    3 => h.set_forth(w),
+                    4 => h.set_fifth(w),
+                    _ => h.set_sixth(w),
+                }
+                AnyHand::H6(h)
+            }
+            AnyHand::H7(mut h) => {
+                match i {
+                    0 => h.set_first(w),
+                    1 => h.set_second(w),
+                    2 => h.set_third(w),
+                    3 => h.set_forth(w),
+                    4 => h.set_fifth(w),
+                    5 => h.set_sixth(w),
+                    _ => h.set_seventh(w),
+                }
+                AnyHand::H7(h)
+            }
+        }
+    }
+    pub const SLOT_NAMES: [&'static str; 7] = ["first", "second", "third", "forth", "fifth", "sixth", "seventh"];
+    /// every other public way of building the same container from the same words
+    pub fn constructor_forms(w: &[u32]) -> Vec<(&'static str, AnyHand)> {
+        let mut v = vec![("From<[u32; N]>", AnyHand::from_words(w))];
+        match w.len() {
+            2 => {
+                v.push(("Two::new", AnyHand::H2(Two::new(w[0], w[1]))));
+                v.push(("From<&[u32; 2]>", AnyHand::H2(Two::from(&[w[0], w[1]]))));
+                let mut d = Two::default();
+                d.set_first(w[0]);
+                d.set_second(w[1]);
+                v.push(("Default + setters", AnyHand::H2(d)));
+            }
+            3 => {
+                v.push(("Three(pub [..])", AnyHand::H3(Three([w[0], w[1], w[2]]))));
+            }
+            5 => {
+                v.push(("Five::new", AnyHand::H5(Five::new(w[0], w[1], w[2], w[3], w[4]))));
+            }
+            6 => {
+                v.push(("Six::from_1_and_2_and_3", AnyHand::H6(Six::from_1_and_2_and_3(w[0], Two::new(w[1], w[2]), Three([w[3], w[4], w[5]])))));
+            }
+            7 => {
+                v.push(("Seven::new(Two, Five)", AnyHand::H7(Seven::new(Two::new(w[0], w[1]), Five::new(w[2], w[3], w[4], w[5], w[6])))));
+            }
+            _ => {}
+        }
+        v
+    }
+    pub fn default_of(n: usize) -> AnyHand {
+        match n {
+            2 => AnyHand::H2(Two::default()),
+            3 => AnyHand::H3(Three::default()),
+            4 => AnyHand::H4(Four::default()),
+            5 => AnyHand::H5(Five::default()),
+            6 => AnyHand::H6(Six::default()),
+            _ => AnyHand::H7(Seven::default()),
+        }
+    }
+}
+
 pub const RANK_ENTRIES: [&str; 5] = ["hand_rank_value", "hand_rank.value", "hand_rank_value_and_hand.0", "hand_rank_value_validated", "hand_rank_validated.value"];
